@@ -383,6 +383,46 @@ def _payload(m, lv, bi, b, payload, nprng):
             for f in range(shp[-1]):      # no all-NaN box component (no canonical min/max row)
                 if np.isnan(arr[..., f]).all():
                     arr[..., f] = keep[..., f]
+        if payload == "special":
+            # value patterns of whole box components that a data-dependent shortcut ("empty", "uniform", "unset")
+            # mistakes for something else; every one is ordinary, valid field data
+            for f in range(shp[-1]):
+                if nprng.random() >= 0.3:
+                    continue
+                comp = np.array(arr[..., f], order="F")
+                n = comp.size
+                kind = int(nprng.integers(0, 7))
+                if kind == 0:        # zeros of both signs (an antisymmetric component that vanishes, -1 * 0.0)
+                    comp[...] = 0.0
+                    comp.reshape(-1, order="F")[nprng.random(n) < 0.5] = -0.0
+                    if n > 1:
+                        comp.reshape(-1, order="F")[0] = -0.0
+                elif kind == 1:      # one value everywhere except for a few NaN cells: min == max in the header table
+                    comp[...] = [298.0, -1.5, 0.0][int(nprng.integers(0, 3))]
+                    if n > 1:
+                        comp.reshape(-1, order="F")[nprng.choice(n, size=max(1, n // 9), replace=False)] = np.nan
+                        if np.isnan(comp).all():
+                            comp.reshape(-1, order="F")[0] = 298.0
+                elif kind == 2:      # exactly uniform
+                    comp[...] = [0.0, 1.0, 1.0e30, -7.25][int(nprng.integers(0, 4))]
+                elif kind == 3:      # NaN in the very last stored cell of the component (and the first)
+                    if n > 2:
+                        comp.reshape(-1, order="F")[-1] = np.nan
+                        comp.reshape(-1, order="F")[0] = np.nan
+                elif kind == 4:      # values that cancel exactly: the sum is 0.0, nothing is zero
+                    v = np.where(np.arange(n) % 2 == 0, 2.0, -2.0)
+                    if n % 2:
+                        v[-1] = 0.5
+                        if n > 2:
+                            v[-2] = -2.5
+                    comp.reshape(-1, order="F")[:] = v
+                elif kind == 5:      # a trace quantity: all values within 1e-8 of one another, none equal
+                    comp[...] = (1.0 + nprng.random(comp.shape) * 8.0) * 1e-11
+                else:                # sentinel magnitudes real data can hold
+                    flatc = comp.reshape(-1, order="F")
+                    for v in (-1.0, 1.0e30, -1.0e30, 1.7976931348623157e308, 3.5e38, -3.5e38, 0.0):
+                        flatc[int(nprng.integers(0, n))] = v
+                arr[..., f] = comp
         return arr
     if payload == "extreme":
         # magnitudes at both ends of the float64 range, so that the extrema written to the level
